@@ -106,6 +106,13 @@ func (g *Gen) run() {
 		return
 	}
 	g.runFrame()
+	// an `assert at <anchor>` whose anchor never occurred no longer binds to the code
+	for _, a := range c.Asserts {
+		if !g.firedAnchors[a.Anchor] {
+			g.curR = "true"
+			g.ob("anchor-binding", a.Label, "false", "anchor `"+a.Anchor+"` does not occur in the function any more")
+		}
+	}
 }
 
 // let-bindings of a contract, evaluated in the current (pre-)state and added to vars
